@@ -558,10 +558,26 @@ def lockers(chk, P):
         f = _one(chk, P, MI + "::" + fname)
         if not f:
             continue
-        decls = {d["var"]: d for _, _, d in f.events(lambda d: d["k"] == "decl")}
-        ivs = [v for v, d in decls.items() if d.get("init") is not None and sx_find(d["init"], lambda y: y[0] == "call" and y[1].endswith("::updInstanceVars"))]
-        w = [e for _, _, e in f.events(lambda e: e["k"] == "assign" and bool(sx_find(e["lhs"], lambda y: y[0] == "mem" and _last(y[2]) == "prescribedMotionIsDisabled")))]
-        ok = len(ivs) == 1 and len(w) == 1 and isinstance(w[0]["rhs"], list) and w[0]["rhs"][0] == "lit" and w[0]["rhs"][1] == val and \
+        def flag_writes(g):
+            decls = {d["var"]: d for _, _, d in g.events(lambda d: d["k"] == "decl")}
+            ivs = [v for v, d in decls.items() if d.get("init") is not None and sx_find(d["init"], lambda y: y[0] == "call" and y[1].endswith("::updInstanceVars"))]
+            w = [e for _, _, e in g.events(lambda e: e["k"] == "assign" and bool(sx_find(e["lhs"], lambda y: y[0] == "mem" and _last(y[2]) == "prescribedMotionIsDisabled")))]
+            return ivs, w
+        ivs, w = flag_writes(f)
+        value = w[0]["rhs"] if len(w) == 1 else None
+        if not w:
+            # the store may live in a helper of the same class that is handed the value (disable/enable sharing one implementation)
+            for _, _, ce in f.calls():
+                for g in P.by_id.get(ce.get("fid"), []) if ce.get("fid") else []:
+                    if g.cls != f.cls or g is f:
+                        continue
+                    ivs2, w2 = flag_writes(g)
+                    if len(w2) == 1:
+                        ivs, w = ivs2, w2
+                        ps = [p_[0] for p_ in g.d.get("params", [])]
+                        r_ = w2[0]["rhs"]
+                        value = call_args(ce)[ps.index(r_[1])] if isinstance(r_, list) and r_[:1] == ["var"] and r_[1] in ps and len(call_args(ce)) == len(ps) else r_
+        ok = len(ivs) == 1 and len(w) == 1 and isinstance(value, list) and value[0] == "lit" and value[1] == val and \
             bool(sx_find(w[0]["lhs"], lambda y: y[0] == "call" and y[1].endswith("::getMyMobilizedBodyIndex")))
         chk.judge(ok, "LOCK", "Motion::%s:flag<-%s" % (fname, val), f.loc, "stores %s for its own mobilizer through updInstanceVars" % val)
     # the variable is an Instance-stage variable
